@@ -115,6 +115,10 @@ func (u *Unit) verify() (err error) {
 		u.s.assume(env.evalBool(c.Expr))
 		u.note("bounded proof of %s holds under the stated bound: %s", con.Key, c.Expr)
 	}
+	for _, c := range con.InAssumed {
+		u.s.assume(env.evalBool(c.Expr))
+		u.note("input well-formedness assumed (not checked at call sites) for %s: %s", con.Key, c.Expr)
+	}
 	u.nRequiresFacts = len(u.s.facts)
 	if con.Trusted {
 		return nil
@@ -390,6 +394,9 @@ func (u *Unit) applyContract(st *State, con *Contract, args []TV, instr ssa.Inst
 	for _, c := range con.Requires {
 		goal := env.evalBool(c.Expr)
 		u.oblige(st, "pre", short+"."+c.Label, "", goal, instr.Pos())
+	}
+	for _, c := range con.InAssumed {
+		u.note("call to %s relies on its unchecked input assumption: %s", con.Key, c.Expr)
 	}
 	pre := st.clone()
 	u.applyFrameHavoc(st, env, con)
